@@ -355,7 +355,7 @@ func build(tier string) []*vkit.Scenario {
 				}
 				// two connections on two pollers
 				if b == 2 && (mr == 1 || thorough) {
-					c := cfg{mode: e.mode, async: e.async, exec: e.exec, npoller: 2, b: b, maxReads: mr, trans: "tcp", bursts: []int{b + 1, 1}, conns: 2, p: 1, d: 0}
+					c := cfg{mode: e.mode, async: e.async, exec: e.exec, npoller: 2, b: b, maxReads: mr, trans: "tcp", bursts: []int{b + 1, 1}, conns: 2, p: 2, d: 0}
 					add(c, streamBody(c))
 				}
 				// UDP: two remotes x <= 2 datagrams
